@@ -241,4 +241,31 @@ Proof.
            Va K1 K2 K3 N1 N2 N3 HS FA FR FB Hc _ f2 f' R1 R2 ilst_data (new_pad cb f off old ilst_data) it eq_refl
            (Z.le_min_l _ _) Hit Hheight Hith Hcov Hent Hic).
 Qed.
+(* after the save, the next lookup finds the new ilst and, as padding, exactly the free atom this save wrote *)
+Theorem save_existing_found_again it :
+  mp4_forest_ok ilst_data false [it] 0 (zlen ilst_data) = true -> mp4_height it <= 62 -> ma_name it = N_ilst ->
+  exists off old atoms' path',
+    mp4_region_of path = Some (off, old) /\
+    mp4_atoms f' = Ok atoms' /\ mp4_path atoms' ILST_PATH = Some path' /\
+    mp4_region_of path' = Some (off, zlen (new_region cb f off old ilst_data)) /\
+    agree (new_region cb f off old ilst_data) 0 f' off (zlen (new_region cb f off old ilst_data)) /\
+    zlen f' = zlen f + (zlen (new_region cb f off old ilst_data) - old).
+Proof.
+  intros Hit Hith Hitn. destruct (existing_view f atoms path Hforest Hpath) as (off & old & [V]).
+  assert (Hc : ilst_clean (v_ilst _ _ _ _ _ V) = true).
+  { unfold mp4_tags_clean in Hclean. rewrite Hpath, (v_path _ _ _ _ _ V) in Hclean. exact Hclean. }
+  destruct (pk_runs f atoms path off old V Hforest Htab Hc ilst_data cb f' final_existing) as (f2 & R1 & R2).
+  pose proof (v_region _ _ _ _ _ V) as HRg0.
+  destruct V as [moov udta meta ilst T1 T2 M1 M2 U1 U2 A R B Vp Va K1 K2 K3 N1 N2 N3 N4 HS HRg FA FR FB X1 X2 X3 X4]. cbn in *.
+  set (data := new_region cb f off old ilst_data) in *. set (pad := new_pad cb f off old ilst_data).
+  pose proof (existing_result_wellformed f atoms Hforest Htab moov udta meta ilst T1 T2 M1 M2 U1 U2 A R B off old
+                Va K1 K2 K3 N1 N2 N3 HS FA FR FB Hc data f2 f' R1 R2 ilst_data pad it eq_refl (Z.le_min_l _ _) Hit) as W.
+  pose proof (new_atoms_height atoms moov udta meta T1 T2 M1 M2 U1 U2 A R B off old Va K1 K2 K3 data ilst_data pad it Hheight Hith) as HH.
+  pose proof (ex_result f atoms Hforest Htab moov udta meta ilst T1 T2 M1 M2 U1 U2 A R B off old
+                Va K1 K2 K3 N1 N2 N3 HS FA FR FB Hc data f2 f' R1 R2) as (Z & _ & AGD & _).
+  exists off, old. eexists. eexists. split; [exact HRg0|]. split; [apply parse_complete; [exact W|exact HH]|].
+  split; [exact (new_path moov udta meta T1 T2 M1 M2 U1 U2 A B off old N1 N2 N3 data ilst_data pad it X1 X2 X3 X4 Hitn)|].
+  split; [exact (new_region_found moov udta meta M1 M2 U1 U2 A B off old data ilst_data pad it eq_refl Hit X4 Hitn)|].
+  split; [exact AGD|exact Z].
+Qed.
 End Final.
